@@ -166,7 +166,13 @@ class ColInterp:
             if not isinstance(it, (list, tuple, range)):
                 raise RowUnknown("loop bound")
             for x in it:
-                env[st.target.id] = x
+                if isinstance(st.target, ast.Name):
+                    env[st.target.id] = x
+                elif isinstance(st.target, (ast.Tuple, ast.List)) and isinstance(x, (tuple, list)) and len(x) == len(st.target.elts) and all(isinstance(t, ast.Name) for t in st.target.elts):
+                    for t, v in zip(st.target.elts, x):
+                        env[t.id] = v
+                else:
+                    raise RowUnknown("loop target")
                 self.block(st.body, env)
             return
         if isinstance(st, ast.Return):
@@ -306,6 +312,13 @@ class ColInterp:
                 return args[0]
             if f.id in ("len",):
                 return len(args[0])
+            if f.id == "enumerate" and len(args) in (1, 2) and isinstance(args[0], (list, tuple, range)):
+                start = args[1] if len(args) == 2 else kw.get("start", 0)
+                return [(start + i, x) for i, x in enumerate(args[0])]
+            if f.id in ("list", "tuple") and len(args) == 1 and isinstance(args[0], (list, tuple, range)):
+                return list(args[0])
+            if f.id == "zip" and all(isinstance(a, (list, tuple, range)) for a in args):
+                return [tuple(z) for z in zip(*args)]
             fn = env.get(f.id)
             if not isinstance(fn, ast.FunctionDef):
                 fn = module_lookup(self.fn, f.id)
